@@ -485,6 +485,89 @@ fn main() {
             wide_scope(10_400);
             fastrace::flush();
         }
+        "shared-trace-id" | "shared-trace-id-cancelable" => {
+            // several roots continue the SAME trace id (legal: the same remote context handed to
+            // several entry points); a span over all of them, attachments made after creation by
+            // every route, collector cycles at seeded places: every copy of the span (one per
+            // root, told apart by its parent id) carries each attachment exactly once
+            let rep = Rep::default();
+            let cancelable = sc.ends_with("cancelable");
+            fastrace::set_reporter(rep.clone(), Config::default().cancelable(cancelable).report_interval(Duration::from_secs(3600)));
+            std::thread::sleep(Duration::from_millis(30));
+            let mut rng = hx::rng::Rng::new(0x5eed_0001);
+            let mut checked = 0usize;
+            for round in 0..150u64 {
+                let nroots = 2 + (rng.below(3)) as usize;
+                let tid = TraceId(0x7000_0000_0000 + round as u128);
+                let roots: Vec<Span> = (0..nroots).map(|i| Span::root(format!("root{}", i), SpanContext::new(tid, SpanId(100 + i as u64)))).collect();
+                let root_ids: Vec<u64> = roots.iter().map(|r| SpanContext::from_span(r).map(|c| c.span_id.0).unwrap_or(0)).collect();
+                let maybe_cycle = |rng: &mut hx::rng::Rng| {
+                    if rng.chance(1, 3) {
+                        fastrace::flush();
+                    }
+                };
+                let m = Span::enter_with_parents("merged", roots.iter()).with_property(|| ("created", "yes"));
+                let mut want_events: Vec<String> = vec![];
+                let mut want_props: Vec<String> = vec!["created".into()];
+                let steps = 1 + rng.below(5);
+                for k in 0..steps {
+                    maybe_cycle(&mut rng);
+                    match rng.below(4) {
+                        0 => {
+                            let n = format!("ev{}", k);
+                            m.add_event(Event::new(n.clone()));
+                            want_events.push(n);
+                        }
+                        1 => {
+                            let n = format!("p{}", k);
+                            let n2 = n.clone();
+                            m.add_property(move || (n2, "v".to_string()));
+                            want_props.push(n);
+                        }
+                        2 => {
+                            let _g = m.set_local_parent();
+                            let n = format!("lev{}", k);
+                            LocalSpan::add_event(Event::new(n.clone()));
+                            want_events.push(n);
+                        }
+                        _ => {
+                            let _g = m.set_local_parent();
+                            let n = format!("lp{}", k);
+                            let n2 = n.clone();
+                            LocalSpan::add_property(move || (n2, "v".to_string()));
+                            want_props.push(n);
+                        }
+                    }
+                }
+                maybe_cycle(&mut rng);
+                drop(m);
+                maybe_cycle(&mut rng);
+                for r in roots {
+                    drop(r);
+                }
+                fastrace::flush();
+                fastrace::flush();
+                let recs = std::mem::take(&mut *rep.0.lock().unwrap());
+                for (i, rid) in root_ids.iter().enumerate() {
+                    let copies: Vec<&SpanRecord> = recs.iter().filter(|r| r.name == "merged" && r.parent_id.0 == *rid && r.trace_id == tid).collect();
+                    if copies.len() != 1 {
+                        panic!("round {}: {} copies of the merged span under root {} (trace id shared by {} roots)", round, copies.len(), i, nroots);
+                    }
+                    let mut ev: Vec<String> = copies[0].events.iter().map(|e| e.name.to_string()).collect();
+                    let mut pr: Vec<String> = copies[0].properties.iter().map(|(k, _)| k.to_string()).collect();
+                    let (mut we, mut wp) = (want_events.clone(), want_props.clone());
+                    ev.sort();
+                    pr.sort();
+                    we.sort();
+                    wp.sort();
+                    if ev != we || pr != wp {
+                        panic!("round {}: the copy of the merged span under root {} of {} (all roots share one trace id) has events {:?} / properties {:?}, expected {:?} / {:?}", round, i, nroots, ev, pr, we, wp);
+                    }
+                    checked += 1;
+                }
+            }
+            extra = json!({"rounds": 150, "copies_checked": checked});
+        }
         "deep-backlog" => {
             // more finish signals parked in one episode than the ring has slots (10240): they must
             // all get through once the collector runs again, and later traces must be complete
